@@ -996,15 +996,13 @@ def lut8_wrapper(V, site, dtype, code, scale_kind, zp_in, zp_out, ofm_scale):
         yd = d(y)
         q = z3.fpDiv(RNE, yd, fv(float(ofm_scale)))
         q20 = z3.fpMul(RNE, q, fv(2.0 ** 20))
-        q2 = z3.fpMul(RNE, q, fv(2.0))
-        tie = z3.And(z3.fpEQ(q2, z3.fpRoundToIntegral(z3.RTZ(), q2)), z3.Not(z3.fpEQ(q, z3.fpRoundToIntegral(z3.RTZ(), q))))
-        # exact ties are left out: both neighbours are nearest, the property does not name a direction (convert_to_lut8 rounds zp_out + q half away
-        # from zero, the TFLite reference rounds q - they differ on ties where q and zp_out + q have different signs)
-        on_grid = z3.And(z3.fpEQ(q20, z3.fpRoundToIntegral(z3.RTZ(), q20)), z3.Not(tie))
+        # ties included: the TFLite reference (LUT population of the int8 kernels) rounds the rescaled value half away from zero and THEN adds the
+        # zero point - round(y / scale) + zp - so at an exact tie the direction depends on the sign of y, not of zp + y / scale
+        on_grid = z3.fpEQ(q20, z3.fpRoundToIntegral(z3.RTZ(), q20))
         ideal = z3.fpAdd(RNE, fv(zp_out), z3.fpRoundToIntegral(z3.RNA(), q))
         sat = z3.If(z3.fpLT(ideal, fv(qmin)), fv(qmin), z3.If(z3.fpGT(ideal, fv(qmax)), fv(qmax), ideal))
         td = fp.as_f64(t) if isinstance(t, fp.SFloat) else fv(t)
-        exact = [("power-of-two output scale, y on the 2^-20 grid and not a tie: the entry is exactly sat(zp_out + nearest(y / ofm_scale))",
+        exact = [("power-of-two output scale, y on the 2^-20 grid: the entry is exactly sat(zp_out + round-half-away(y / ofm_scale))",
                   z3.Implies(on_grid, z3.fpEQ(td, sat)))]
     return exact + [("the function is evaluated at the dequantised input ifm_scale * (code - zp_in), computed in %s" % kind,
              z3.fpEQ(to(xs), z3.fpMul(RNE, sic, cv(code - zp_in)))),
